@@ -692,8 +692,130 @@ def _is_induction(b, l, blks):
     return all(b.dominates(ds[0][0], u) for (u, h) in b.back_edges() if u in blks and h in blks)
 
 
+def _has_bitand(t):
+    return term_has(t, lambda x: isinstance(x, tuple) and len(x) > 1 and x[0] == 'bin' and x[1] == 'BitAnd')
+
+
+def _zero_test(c):
+    """('Ne'|'Eq') when term c compares something holding a BitAnd with the constant 0"""
+    neg = False
+    while isinstance(c, tuple) and len(c) == 3 and c[0] == 'un' and c[1] == 'Not':
+        c, neg = c[2], not neg
+    if isinstance(c, tuple) and len(c) == 4 and c[0] == 'bin' and c[1] in ('Ne', 'Eq'):
+        for a, z in ((c[2], c[3]), (c[3], c[2])):
+            if _has_bitand(a) and z == ('const', 0):
+                op = c[1]
+                if neg:
+                    op = 'Eq' if op == 'Ne' else 'Ne'
+                return op
+    return None
+
+
+def r210(facts, res):
+    """Pager's conditions are stated over whole look-ahead sets; `vob_intersect` decides "do the two sets share a token" word by
+    word.  The answer must be true as soon as ANY pair of words shares a bit.  Three shapes are recognised: a loop that returns
+    true at the first common bit; `Iterator::any` over the word pairs with a closure that answers `a & b != 0`; an accumulator
+    that ORs the common bits (or the test's outcome) of every pair into what it already holds."""
+    R = 'R2.10'
+    bs = [b for b in facts.lib_bodies(['lrtable']) if b.name == 'vob_intersect' and b.kind != 'closure']
+    if len(bs) != 1:
+        return res.lost(R, 'lrtable::pager::vob_intersect not found (%d)' % len(bs))
+    b = bs[0]
+    key = 'any-word-pair'
+
+    def ands(body):
+        return [(bb, st) for bb, i, st in body.stmts() if st['k'] == 'assign' and st['rv'].get('bin') == 'BitAnd']
+    cls = [c for c in facts.closures_of(b) if ands(c)]
+    if cls:
+        probs = []
+        for c in cls:
+            used = [t for bb, t in b.calls() if cname(t) in ('any',) and any(op_local(a) is not None and any(k == 'stmt' and isinstance(rv.get('agg'), dict) and rv['agg'].get('closure') == c.path
+                                                                                                         for _b, k, rv in b.defs().get(op_local(a), ())) for a in t['args'])]
+            if not used:
+                probs.append('the closure that intersects a word pair is not the predicate of Iterator::any')
+                continue
+            for p in Walker(c, facts, max_paths=64).run():
+                if p.end[0] != 'return':
+                    continue
+                r = p.end[1]
+                zt = _zero_test(r)
+                if zt == 'Ne':
+                    continue
+                if r in (('const', 1), ('const', 0)):
+                    tests = [(_zero_test(cc), v) for cc, v in p.conds if _zero_test(cc)]
+                    nz = any((op == 'Ne') == bool(v) for op, v in tests)
+                    if tests and nz == (r == ('const', 1)):
+                        continue
+                probs.append('the predicate does not answer `a & b != 0` (it answers %s)' % fmt_term(r)[:80])
+        ends = [p.end[1] for p in Walker(b, facts, max_paths=64).run() if p.end[0] == 'return']
+        if not ends or not all(is_call(e, 'any') for e in ends):
+            probs.append('the function does not return the answer of Iterator::any as it is')
+        if probs:
+            res.bad(R, key, loc_of(b), '; '.join(sorted(set(probs))[:2]), {'function': b.path})
+        else:
+            res.ok(R, key, loc_of(b), 'Iterator::any over the word pairs with the predicate `a & b != 0`')
+        return
+    if not ands(b):
+        return res.lost(R, 'vob_intersect no longer intersects storage words with `&` (unknown shape)')
+    w = widening_walker(b, facts, max_paths=512)
+    ps = w.run(0)
+    saw, probs = 0, []
+    for p in ps:
+        for c, v in p.conds:
+            op = _zero_test(c)
+            if op is None:
+                continue
+            nz = (op == 'Ne') == bool(v)
+            if nz:
+                saw += 1
+                if not (p.end[0] == 'return' and p.end[1] == ('const', 1)):
+                    probs.append('a word pair with a common bit does not make the function return true at once (path ends in %s)' % (p.end[0],))
+    if saw:
+        if probs:
+            res.bad(R, key, loc_of(b), '; '.join(sorted(set(probs))[:2]), {'function': b.path})
+        else:
+            res.ok(R, key, loc_of(b), 'returns true at the first word pair with a common bit (%d paths)' % saw)
+        return
+    # accumulate form: everything the common bits are stored into inside the loop must keep what it held
+    inloop = set()
+    for h, body_ in b.loops().items():
+        inloop |= set(body_)
+    if not inloop:
+        inloop = set(b.reachable())
+    tainted = set(st['lhs']['l'] for bb, st in ands(b))
+    changed = True
+    stores = []
+    while changed:
+        changed = False
+        for bb, i, st in b.stmts():
+            if st['k'] != 'assign' or bb not in inloop:
+                continue
+            ops = [op_local(o) for o in rv_operands(st['rv'])]
+            if any(o in tainted for o in ops) and st['lhs']['l'] not in tainted:
+                tainted.add(st['lhs']['l'])
+                changed = True
+    for bb, i, st in b.stmts():
+        if st['k'] != 'assign' or bb not in inloop or st['lhs']['p']:
+            continue
+        l = st['lhs']['l']
+        if l not in tainted or not b.name_of(l):
+            continue
+        ops = [op_local(o) for o in rv_operands(st['rv'])]
+        keeps = st['rv'].get('bin') in ('BitOr',) and any(o is not None and b.root(o, stop_named=True)[0] == l for o in ops)
+        stores.append((l, keeps, st.get('line')))
+    if not stores:
+        return res.lost(R, 'vob_intersect: the common bits of a word pair are neither tested against 0 nor accumulated (unknown shape)')
+    bad = [(l, ln) for l, keeps, ln in stores if not keeps]
+    if bad:
+        res.bad(R, key, loc_of(b), 'line %s: `%s` is overwritten with the common bits of the current word pair, so only the last pair of words decides the answer (accumulate with `|=`)'
+                % (bad[0][1], b.name_of(bad[0][0])), {'function': b.path})
+    else:
+        res.ok(R, key, loc_of(b), 'the common bits of every word pair are ORed into `%s`' % b.name_of(stores[0][0]))
+
+
 def run(facts, res):
     r29(facts, res)
+    r210(facts, res)
     r25(facts, res)
     r21(facts, res)
     r22(facts, res)
